@@ -11,24 +11,43 @@ SPEC = dict(
                 "cool-down expiries and the try/read-channel/wake/cancel steps of any number of next() callers; over ALL step sequences: "
                 "activeCount = number of active peers (+ list/map consistency, hasPeer <-> activeCount>0), tryGet returns only active peers, "
                 "never panics, never misses one, an offered peer has no cool-down younger than ttl, a parked waiter's channel is closed as soon "
-                "as a peer is active and its retry gets one. (3) Manager: model of manager.go with one event per entry-point call; over all event "
+                "as a peer is active and its retry gets one. "
+                "(3) Manager, whole calls: model of manager.go with one event per entry-point call; over all event "
                 "sequences and all map-iteration orders: a peer is in the general pool only if discovery added it or a hash it announced was "
-                "confirmed, and a blacklisted peer is never returned by Peer again. Both models are re-validated against the real pool / real "
-                "Manager on ~900 generated operation sequences (~30k operations) per run. PARTIAL: interleavings inside one Manager call "
-                "(the Manager holds no lock across a call) and Go-runtime scheduling/data races are not modelled; they are exercised only by the "
-                "harness' deterministic two-thread deadlock schedule and concurrent stress with a watchdog."),
+                "confirmed, and a blacklisted peer is never returned by Peer again. "
+                "(4) Manager at LOCK GRANULARITY (Peers/Fine.v): the Manager holds no lock across a call, so every call in progress is a thread "
+                "with a program counter and its local variables, one event is ONE critical section of one thread (Validate 7, validatedPool 4+n, "
+                "Peer up to 9 per retry + the blocking select, blacklistPeers 3 per peer: nodes.remove | BlockPeer | ClosePeer, UpdateNodePool 2, "
+                "disconnect 2, GC round 2 + blacklistPeers, ...), syncPools are heap objects that outlive their map entry; over ALL interleavings of "
+                "any number of concurrent calls: a Peer call that begins after a peer was blacklisted never returns it (fast path and blocking "
+                "path), a returned misbehaviour report did blacklist, a peer is in the general pool only if a discovery add / an announcement of a "
+                "hash whose confirmation has begun has begun; and the blacklist test in removeIfUnreachable is necessary: for the variant that "
+                "tests nodes.has only, the theorem is refuted by the schedule 'discovery add between nodes.remove and BlockPeer'. "
+                "All three models are re-validated against the real pool / real Manager on every run: ~900 sequential operation sequences, each "
+                "manager sequence evaluated by BOTH manager models, plus ~230 schedules in which real Manager calls are parked at named points "
+                "inside the real code (log statements, the gater's datastore write, ClosePeer, the general pool's queue mutex) while other calls "
+                "run. PARTIAL: cleanUp is one step (it holds Manager.lock but reads atomics and peersList unlocked); Go-runtime scheduling below "
+                "lock granularity and data races are not modelled; the harness reaches only the interleavings whose switch points have a hook; "
+                "deadlock freedom rests on the translator's lock graph."),
     rule=("pool sequences: 13 scripted (unit-test scenarios, cool-down/remove/re-add/cool-down, waiters) + 500 random sequences of 8-48 operations over "
           "3-6 peers {add 1-3, remove, tryGet, putOnCooldown (biased to active peers), clock tick 0-20 s with ttl 10 s, cleanup, next() start/cancel}, "
           "cleanup thresholds {0,1,2,3}; non-trivial = the sequence has a cool-down followed by a remove and by a clock tick. "
           "manager sequences: 11 scripted + 400 random sequences of 6-36 events over 5 peers x 4 hashes {shrex-sub notification (right/old/random height, "
           "self), header, Peer, DoneFunc(noop|cooldown|blacklist) of an outstanding peer, discovery add/remove, disconnect, pool ageing, GC round, clock "
           "tick}, blacklisting on in 70%; non-trivial = a notification followed by a confirmation and (when blacklisting is on) a blacklisting event. "
+          "fine schedules: 13 scripted (every parking point; the discovery-add / in-flight-Validate / GC variants of the gap between nodes.remove and "
+          "BlockPeer; the benign overlap where Peer has made its last test before the blacklisting) + 220 random schedules of 8-34 scheduler decisions over "
+          "4 peers x 4 hashes {start a call and run it to its end or to one of its parking points, resume a parked call to its end or to a later parking "
+          "point, age, tick}, at most 3 calls parked, peers biased to the one being blacklisted, blacklisting on in 85%; non-trivial = some call ran "
+          "while another was parked and (when blacklisting is on) a blacklisting call happened. "
           "distinct = distinct Coq case term (events + every returned value + projected final state)."),
     trusted_base=[
         "translator /verif/translators/locks (go/ast+go/types, ~600 lines): extracts mutex events per function, follows same-package calls and function-valued fields bound syntactically (timedQueue.onPop = pool.afterCooldown), may-hold sets over branches/loops; calls leaving the package or going through interfaces/unbound function values are assumed not to re-enter the package's locks (listed in the generated file); locks are identified by declaring type+field (instance-insensitive, RLock = Lock)",
         "the hypothesis of C17_peers_no_deadlock (every thread follows the generated edge list and releases what it took) is what the translator asserts of the Go code; Go mutex semantics (exclusive, blocking) as modelled in Base/LockOrder.v",
         "models Peers/Pool.v and Peers/Manager.v hand-written after pool.go, timedqueue.go, manager.go; tied by the correspondence harness (real pool with benbjohnson mock clock injected like timedqueue_test.go; real Manager built like manager_test.go: mocknet host, BasicConnectionGater over a map datastore, real subscribeHeader / subscribeDisconnectedPeers loops fed by scripted subscriptions; one GC round = cleanUp + blacklistPeers as in the GC loop body; pool age = createdAt moved 1h back)",
-        "pool steps are atomic because every pool method holds pool.m (and the queue its mutex); manager events are modelled as atomic although the Manager holds no lock across a call (partial)",
+        "pool steps are atomic because every pool method holds pool.m (and the queue its mutex); Peers/Manager.v treats a whole Manager call as atomic, Peers/Fine.v splits it into its critical sections; the two are tied by evaluating every sequential case in both (no Coq refinement proof between them)",
+        "Peers/Fine.v: one step = one critical section as read off manager.go (Manager.lock, pool.m, the gater's RWMutex, the LRU, atomics); cleanUp is a single step; connGater.BlockPeer takes effect atomically when it sets its map (its datastore write before that is a parking point; a failing datastore is not modelled); Network().ClosePeer has no effect on the model",
+        "lock-granularity harness: the package variable `log` is replaced by a logger whose zap core calls the scheduler (parking points = log statements of manager.go, matched by message text), the gater's datastore and the host are wrapped (BlockPeer's write, ClosePeer), the scheduler holds the general pool's queue mutex and reads its waiter count to park a call before nodes.add / nodes.putOnCooldown; exactly one call runs at a time; Peer is called with a cancelled context, so its blocking select is exercised only up to 'would wait' (the FWake steps of the model are proved about, not replayed)",
         "Go map iteration order enters the manager model as an explicit event parameter (theorems quantify over it; cases record the order the implementation used)",
         "libp2p host / connection gater / pubsub are mocked or real third-party code, not verified; metrics are off; blacklistedHashes LRU eviction (1024 entries) is not modelled",
         "Peer()'s blocking wait is modelled only up to 'would wait' (PWait); the wait itself is the pool's next(), covered by the pool model",
